@@ -73,6 +73,22 @@ func run(c *hlib.Ctx) {
 // G wraps the context with a few random helpers.
 type G struct{ *hlib.Ctx }
 
+// Stat records a distribution counter under a ONE-token key `c08.<kind>.<what>` (the check parses
+// `#stat <key> <int>`): blanks and punctuation of the readable key are folded.
+func (g *G) Stat(key string, n int) {
+	key = strings.Replace(key, " ", ".", 1)
+	key = statFold.Replace(key)
+	g.Ctx.Stat("c08."+strings.Trim(key, "_"), n)
+}
+
+// PropFail: the site must be ONE token as well (`prop:c08/<what>`).
+func (g *G) PropFail(site, desc string) {
+	g.Ctx.PropFail(strings.ReplaceAll(site, " ", "/"), desc)
+}
+
+var statFold = strings.NewReplacer(" ", "_", "(", "_", ")", "", "<=", "_le_", ">=", "_ge_", "<", "_lt_", ">", "_gt_",
+	"=", "_eq_", ",", "", "`", "", "+", "_plus_")
+
 func (g *G) p(prob float64) bool        { return g.Rng.Float64() < prob }
 func (g *G) half(span int) float64      { return g.Dyadic(span, 1) }
 func (g *G) pickF(xs []float64) float64 { return xs[g.Rng.Intn(len(xs))] }
